@@ -24,6 +24,22 @@ def DB(focus, q, t, nops=14, big=False, scale=1, shards_q=8):
 def DB_SCN(names):
     return [{"cmd": "db-scenario", "mode": "api", "args": ["--name", n], "cases": {"quick": 1, "thorough": 1}, "corpus": True} for n in names]
 
+
+DISK_TB = ["abstract disk model Store/Disk.lean (durable + un-synced effect list; images = durable + any sub-list) and recovery abstraction with the frame property",
+           "the I/O hook in /repo (cfg nomt_verif, add-only) reports every mutating file operation; its harness-side journal simulates loss of un-synced effects",
+           "harness oracle: BTreeMap of the state before / after the operation, reference trie for roots, real verifier for proofs after recovery"]
+DISK_ASSUME = ["the order/placement hypotheses of the theorem (EvPre / PostOK) are not yet evaluated on the real trace by the Lean driver; the real code is instead crashed / power-failed at every event and reopened",
+               "io_uring writes are observed at submission and completion; a crash waits for submitted writes to complete (their loss is covered by the power-loss variants)"]
+CRASH_RULE = ("cases = generated API histories (as for C01..C12); the parent runs the history once with the I/O hook observing (events per operation, oracle state before/after), "
+              "then for chosen operations re-executes the same history in a child process that dies / fails at event k of that operation, for every k; the directory is reopened by another child "
+              "which reports root, sync_seqn, every value, proof validity and performs a follow-up commit; the report must equal the state before or after the operation (all observables from the same side, "
+              "the new state once the call had returned) and the follow-up commit must yield the reference root.")
+
+
+def CRASH(mode, focus, q, t, steps=2, shards_q=4, big=False, nops=8):
+    args = ["--mode", mode, "--focus", focus, "--nops", str(nops), "--steps", str(steps)] + (["--big"] if big else [])
+    return {"cmd": "crash", "args": args, "cases": {"quick": max(1, q // shards_q), "thorough": max(1, t // 16)}, "shards": {"quick": shards_q, "thorough": 16}, "per_shard_cases": True}
+
 PROPS = {
     "C08": {
         "runs": [
@@ -77,5 +93,23 @@ PROPS = {
         "runs": DB_SCN(["stale-nonblocking-then-rollback", "rejected-overlay-marks-committed"]) + [DB("reject", 200, 2000, nops=16), DB("general", 60, 600, nops=16)],
         "rule": DB_RULE + " C12 focus: pairs of changesets on one base committed in both orders and flavours (blocking / non-blocking, session / overlay), rollback in between, non-blocking commits while a session is alive; after every rejected or deferred attempt root, seqn, values and the result of later rollbacks are compared.",
         "trusted_base": API_TB, "assumptions": API_ASSUME,
+    },
+    # ---------------- crash / power-loss / fault enumeration (harness/src/crash.rs + cfg(nomt_verif) I/O hook) ----------------
+    "C03": {
+        "runs": [CRASH("crash", "general", 6, 60, steps=2, shards_q=6), CRASH("crash", "rollback", 3, 30, steps=2, shards_q=3),
+                 CRASH("nested", "general", 2, 20, steps=1, shards_q=2), CRASH("crash", "kv", 2, 20, steps=1, shards_q=2, big=True)],
+        "rule": CRASH_RULE + " C03: process crash (every issued effect stays) at EVERY event index of the chosen operations (session commits, overlay commits, rollbacks), plus nested crashes at every event of the recovery itself. distinct & non-trivial = distinct (operation, event index strictly inside the operation, variant) triples.",
+        "trusted_base": DISK_TB, "assumptions": DISK_ASSUME,
+    },
+    "C04": {
+        "runs": [CRASH("power", "general", 4, 40, steps=2, shards_q=4), CRASH("power", "rollback", 2, 20, steps=2, shards_q=2), CRASH("power", "kv", 2, 20, steps=1, shards_q=2, big=True)],
+        "rule": CRASH_RULE + " C04: at every event index the child reverts un-fsynced effects before dying: all of them, a seeded random half, and each single one (all single-loss subsets when <= 6 are pending, else a rotating single loss / single survivor); an effect counts as synced only if it COMPLETED before an fsync of its file was ISSUED and that fsync completed.",
+        "trusted_base": DISK_TB, "assumptions": DISK_ASSUME + ["4 KiB page atomicity; tmpfs stands in for the device and the hook's journal for the page cache"],
+    },
+    "C14": {
+        "runs": [dict(CRASH("fault", "kv", 3, 3, steps=3, shards_q=1, nops=10), seed=5), dict(CRASH("fault", "general", 2, 2, steps=2, shards_q=1), seed=2),
+                 CRASH("fault", "general", 6, 60, steps=2, shards_q=6), CRASH("fault", "rollback", 3, 30, steps=2, shards_q=3)],
+        "rule": CRASH_RULE + " C14: every event index of the chosen operations completes with EIO, once and persistently (writes fail at completion, fsync / resize / unlink at the call); the child reports the result of the call and is_poisoned, then the directory is reopened. Two fixed-seed corpus runs replay the histories that exposed F2 and F8.",
+        "trusted_base": DISK_TB, "assumptions": DISK_ASSUME + ["bucket exhaustion is exercised by the API histories with small tables (not yet at every allocation index)"],
     },
 }
